@@ -100,7 +100,7 @@ func liveRound(e *core.Env, round, per int, dns *svx.FakeDNS) {
 	viol := func(kind, format string, a ...any) {
 		rec.Violate("live", round, core.Sig("kind", kind, "part", "live"), map[string]any{"logs": inst.LogLines(20)}, format, a...)
 	}
-	if !inst.WaitLogs("relay service listener", 13, 10*time.Second) {
+	if !inst.WaitLogs("relay service listener", 13, 40*time.Second) {
 		viol("listeners_not_started", "only %d of 13 listeners started", inst.CountLogs("relay service listener"))
 		return
 	}
@@ -253,7 +253,7 @@ func liveRound(e *core.Env, round, per int, dns *svx.FakeDNS) {
 		done := make(chan []byte, 1)
 		go func() { b, _ := io.ReadAll(cc); done <- b }()
 		var got []byte
-		if !svx.Poll(8*time.Second, func() bool {
+		if !svx.Poll(30*time.Second, func() bool {
 			select {
 			case got = <-done:
 				return true
@@ -274,7 +274,7 @@ func liveRound(e *core.Env, round, per int, dns *svx.FakeDNS) {
 				return
 			}
 			peer.Send(conn.AddrFromIPPort(udpT.Addr), []byte("genuine-udp-"+s.name))
-			ok := svx.Poll(8*time.Second, func() bool { return len(peer.Got()) > 0 })
+			ok := svx.Poll(30*time.Second, func() bool { return len(peer.Got()) > 0 })
 			if !ok || string(peer.Got()[0].Payload) != "E|genuine-udp-"+s.name {
 				peer.Close()
 				viol("genuine_request_not_served", "after the hostile traffic the UDP echo through %s did not come back", s.name)
